@@ -1976,7 +1976,38 @@ public:
     // REVISIT: not the most precise renaming but it should be okay.
     m_bool_to_lincsts.rename(old_bools, new_bools);
     m_bool_to_refcsts.rename(old_bools, new_bools);
-    m_bool_to_bools = std::move(bool_to_bools_env_t::top());
+    if (!old_bools.empty() && !m_bool_to_bools.is_top() &&
+        !m_bool_to_bools.is_bottom()) {
+      // Rename both the keys and the elements of the sets. The facts
+      // cannot be just dropped: rename is also applied to the
+      // operands of inclusion tests (e.g., by the array adaptive
+      // domain), where losing facts of the right operand is unsound.
+      auto ren = [&old_bools, &new_bools](const variable_t &v) {
+        for (unsigned i = 0, sz = old_bools.size(); i < sz; ++i) {
+          if (old_bools[i] == v) {
+            return new_bools[i];
+          }
+        }
+        return v;
+      };
+      bool_to_bools_env_t renamed;
+      for (auto it = m_bool_to_bools.begin(), et = m_bool_to_bools.end();
+           it != et; ++it) {
+        const bool_set_t &s = it->second;
+        if (s.is_top()) {
+          continue;
+        }
+        bool_set_t renamed_s(s);
+        if (!s.is_bottom()) {
+          renamed_s = bool_set_t::top();
+          for (auto sit = s.begin(), set = s.end(); sit != set; ++sit) {
+            renamed_s = renamed_s & bool_set_t(ren(*sit));
+          }
+        }
+        renamed.set(ren(it->first), renamed_s);
+      }
+      m_bool_to_bools = std::move(renamed);
+    }
     // Mark from's variables as possibly modified needed for
     // soundness of m_bool_to_lincsts and m_bool_to_refcsts.
     for (auto const&v: from) {
